@@ -20,7 +20,13 @@ import (
 //	simple ::= p.method(r) | p.method() | p.emit(SS3(r)|C0(c)|fmt.Errorf(..)) | p.field = v
 //	         | p.apcData = append(p.apcData, r) | if p.ignoreST { return <state> }
 //	         | if p.exit != nil { p.exit(); p.exit = nil }
-//	         | p.escTimeout = time.AfterFunc(d, func(){<simple>*}) | p.mu.Lock()/Unlock()
+//	         | p.escTimeout = time.AfterFunc(d, func(){<guard-prefix>? <simple>*}) | p.mu.Lock()/Unlock()
+//	         | p.escPending = true          (the flag the timer body tests: this is "armed")
+//	guard-prefix ::= p.mu.Lock(); defer p.mu.Unlock(); if !p.escPending || p.state == nil { return }
+//
+// and, for the interleaving model (coq/model/ParserRace.v), three facts about the shape of the
+// timer body and of Parser.run are emitted as booleans: timer_guarded, run_clears_pending,
+// run_end_finishes.
 var parserStates = map[string]string{
 	"ground": "Ground", "escape": "Escape", "escapeIntermediate": "EscapeIntermediate",
 	"csiEntry": "CsiEntry", "csiParam": "CsiParam", "csiIntermediate": "CsiIntermediate", "csiIgnore": "CsiIgnore",
@@ -41,9 +47,113 @@ var parserMethods = map[string]string{
 var parserExits = map[string]string{"oscEnd": "ExOscEnd", "unhook": "ExUnhook", "apcUnhook": "ExApcUnhook"}
 
 type pgen struct {
-	timerBody string
-	timerMs   int64
-	eofVal    int64
+	timerBody    string
+	timerMs      int64
+	eofVal       int64
+	timerGuarded bool
+}
+
+// isNotPendingOrFinished: !p.escPending || p.state == nil
+func isNotPendingOrFinished(e ast.Expr) bool {
+	be, ok := e.(*ast.BinaryExpr)
+	if !ok || be.Op != token.LOR {
+		return false
+	}
+	ue, ok := be.X.(*ast.UnaryExpr)
+	if !ok || ue.Op != token.NOT || !isP(ue.X, "escPending") {
+		return false
+	}
+	ce, ok := be.Y.(*ast.BinaryExpr)
+	return ok && ce.Op == token.EQL && isP(ce.X, "state") && isIdent(ce.Y, "nil")
+}
+
+func isMuCall(s ast.Stmt, name string) bool {
+	var call *ast.CallExpr
+	switch v := s.(type) {
+	case *ast.ExprStmt:
+		call, _ = v.X.(*ast.CallExpr)
+	case *ast.DeferStmt:
+		call = v.Call
+	}
+	if call == nil || len(call.Args) != 0 {
+		return false
+	}
+	se, ok := call.Fun.(*ast.SelectorExpr)
+	return ok && isP(se.X, "mu") && se.Sel.Name == name
+}
+
+func isAssignP(s ast.Stmt, field, val string) bool {
+	as, ok := s.(*ast.AssignStmt)
+	return ok && as.Tok == token.ASSIGN && len(as.Lhs) == 1 && len(as.Rhs) == 1 && isP(as.Lhs[0], field) && isIdent(as.Rhs[0], val)
+}
+
+// timerPrefix: the callback starts with Lock; defer Unlock; if !pending || finished { return }
+func timerPrefix(l []ast.Stmt) bool {
+	if len(l) < 3 || !isMuCall(l[0], "Lock") {
+		return false
+	}
+	if _, ok := l[1].(*ast.DeferStmt); !ok || !isMuCall(l[1], "Unlock") {
+		return false
+	}
+	is, ok := l[2].(*ast.IfStmt)
+	if !ok || is.Init != nil || is.Else != nil || !isNotPendingOrFinished(is.Cond) || len(is.Body.List) != 1 {
+		return false
+	}
+	rs, ok := is.Body.List[0].(*ast.ReturnStmt)
+	return ok && len(rs.Results) == 0
+}
+
+// runShape inspects Parser.run: (a) inside the read loop `p.escPending = false` stands between
+// p.mu.Lock() and `p.state = anywhere(r, p)`; (b) after the loop, before the EOF marker is emitted,
+// `p.escPending = false` and `p.state = nil` are executed between Lock and Unlock.
+func runShape(f *ast.File) (clears, finishes bool) {
+	fd := findFunc(f, "Parser", "run")
+	if fd == nil {
+		die("ansi/parser.go: method run not found")
+	}
+	// (a)
+	ast.Inspect(fd.Body, func(n ast.Node) bool {
+		bl, ok := n.(*ast.CaseClause)
+		if !ok {
+			if cc, ok2 := n.(*ast.CommClause); ok2 {
+				l := cc.Body
+				for i := 0; i+2 < len(l); i++ {
+					if isMuCall(l[i], "Lock") && isAssignP(l[i+1], "escPending", "false") {
+						if as, ok := l[i+2].(*ast.AssignStmt); ok && len(as.Lhs) == 1 && isP(as.Lhs[0], "state") {
+							if call, ok := as.Rhs[0].(*ast.CallExpr); ok && isIdent(call.Fun, "anywhere") {
+								clears = true
+							}
+						}
+					}
+				}
+			}
+			return true
+		}
+		_ = bl
+		return true
+	})
+	// (b): top-level statements of run after the loop
+	l := fd.Body.List
+	emitAt := -1
+	for i, s := range l {
+		if es, ok := s.(*ast.ExprStmt); ok {
+			if call, ok := es.X.(*ast.CallExpr); ok {
+				if se, ok := call.Fun.(*ast.SelectorExpr); ok && isIdent(se.X, "p") && se.Sel.Name == "emit" {
+					emitAt = i
+					break
+				}
+			}
+		}
+	}
+	for i := 0; i+3 < len(l) && i+3 < emitAt; i++ {
+		if isMuCall(l[i], "Lock") && isMuCall(l[i+3], "Unlock") {
+			a, b := l[i+1], l[i+2]
+			if (isAssignP(a, "escPending", "false") && isAssignP(b, "state", "nil")) || (isAssignP(b, "escPending", "false") && isAssignP(a, "state", "nil")) {
+				finishes = true
+			}
+		}
+	}
+	return
 }
 
 func isP(e ast.Expr, field string) bool {
@@ -147,6 +257,14 @@ func (g *pgen) simple(s ast.Stmt) []string {
 			break
 		}
 		switch {
+		case isP(v.Lhs[0], "escPending"):
+			// the flag the timer body tests: setting it is what arms the Escape report
+			if isIdent(v.Rhs[0], "true") {
+				return []string{"AArmTimer"}
+			}
+			if isIdent(v.Rhs[0], "false") {
+				return []string{}
+			}
 		case isP(v.Lhs[0], "ignoreST"):
 			if isIdent(v.Rhs[0], "true") {
 				return []string{"ASetIgnoreST true"}
@@ -200,11 +318,21 @@ func (g *pgen) simple(s ast.Stmt) []string {
 				break
 			}
 			var body []string
-			for _, st := range fl.Body.List {
+			stmts := fl.Body.List
+			g.timerGuarded = timerPrefix(stmts)
+			if g.timerGuarded {
+				stmts = stmts[3:]
+			}
+			for _, st := range stmts {
 				body = append(body, g.simple(st)...)
 			}
 			g.timerBody = "[" + strings.Join(body, "; ") + "]"
 			g.timerMs = ms
+			if g.timerGuarded {
+				// the callback reports Escape only while p.escPending: `p.escPending = true` arms
+				return []string{}
+			}
+			// unguarded callback: the running timer itself is what is armed
 			return []string{"AArmTimer"}
 		}
 	case *ast.IfStmt:
@@ -357,6 +485,9 @@ func init() {
 			die("ansi/parser.go: anywhere does not arm the escape timer")
 		}
 		fmt.Fprintf(&b, "Definition timer_body : list act := %s.\nDefinition timer_ms : Z := %d.\n\n", g.timerBody, g.timerMs)
+		clears, finishes := runShape(f)
+		b.WriteString("(* shape facts for the interleaving model (model/ParserRace.v): the timer callback runs under\n   p.mu and returns at once unless p.escPending and the parser has not finished; Parser.run\n   clears p.escPending under p.mu before it handles a rune; Parser.run clears it and marks the\n   parser finished (p.state = nil) under p.mu before it emits the end marker *)\n")
+		fmt.Fprintf(&b, "Definition timer_guarded : bool := %v.\nDefinition run_clears_pending : bool := %v.\nDefinition run_end_finishes : bool := %v.\n\n", g.timerGuarded, clears, finishes)
 		b.WriteString("Definition state_fn (s : pstate) : statefn :=\n  match s with\n")
 		for _, name := range parserStateOrder {
 			fmt.Fprintf(&b, "  | %s => fn_%s\n", parserStates[name], name)
